@@ -702,6 +702,12 @@ class Cloner(Task):
                 if rng.random() < 0.2:
                     a["scalar"] = True
                     a["val"] = {"d": "const", "x": g.r(0.5, 3.0, 2)}
+                if rng.random() < 0.15:
+                    a["noprecalc"] = True     # an auxiliary field that is never solved for
+                    ops = [{"k": "var", "out": g.fresh("v"), "a": a}]
+                    if rng.random() < 0.7:
+                        ops.append({"k": "apply", "a": {"v": ops[0]["out"]}})
+                    return ops
                 return [{"k": "var", "out": g.fresh("v"), "a": a}]
         m = g.pick("m")
         if m is None:
